@@ -735,6 +735,7 @@ def run(prog, run):
                               'from a list that cannot be empty (result of split); listed exceptions carry their reason', floor=10)
     run.extra['first_element_sites'] = rule_first_of_nonempty(prog, run, r10)
     rule_listener_moves_out(prog, run)
+    rule_saved_markup(prog, run)
 
     r5 = run.rule('C02.R5', 'parsers terminate on sibling lists: every loop guarded by isNull() of a local DOM node advances that node on every path back to '
                             'the loop head (continue included)', floor=18)
@@ -931,3 +932,58 @@ def _split_targs(t):
             cur += ch
     out.append(cur)
     return out
+
+
+# --------------------------------------------------------------------------- R12: serialized markup is not cut by tag text
+def rule_saved_markup(prog, run):
+    rid = run.rule('C02.R12', 'text that a parser obtains by saving DOM nodes (QDomNode::save into a string) is not edited by searching for or removing tag text (a literal containing '
+                              '"<" or ">"): the same characters occur in nested elements and in text / CDATA, so such a cut leaves markup that is no longer well-formed or drops '
+                              'content - what is wanted is selected on the DOM (children saved one by one)', floor=1)
+    n = 0
+    for f in prog.fns.values():
+        if f.entry is None or '/src/' not in f.file:
+            continue
+        saves = [(i, c) for i, c in f.calls() if (f.cname(c) or '') == 'QDomNode::save' and c.get('args')]
+        if not saves:
+            continue
+        # the strings the streams write into
+        targets = []
+        for i, c in saves:
+            st = f.nodes[f.resolve(c['args'][0])]
+            stack = [c['args'][0]]
+            sn = f.nodes[f.skip(c['args'][0])]
+            if sn['k'] == 'var' and sn.get('vk') == 'local':
+                stack += [d for d in f.all_defs(sn.get('decl')) if d is not None]
+            for x in stack:
+                for j in f.walk(x):
+                    m = f.nodes[j]
+                    if m['k'] == 'construct' and 'QTextStream' in (m.get('cls') or '') and m.get('args'):
+                        for z in f.walk(m['args'][0]):
+                            zn = f.nodes[z]
+                            if zn['k'] in ('mem', 'var') and 'QString' in (zn.get('t') or ''):
+                                targets.append(zn.get('f') or ('decl:%s' % zn.get('decl')))
+        if not targets:
+            continue
+        n += 1
+        run.instance(rid)
+        bad = None
+        for i, c in f.calls():
+            if c.get('obj') is None or (f.sym(c) or {}).get('name') not in ('replace', 'remove', 'indexOf', 'lastIndexOf', 'split', 'section', 'startsWith', 'endsWith', 'contains'):
+                continue
+            o = f.nodes[f.skip(c['obj'])]
+            key = o.get('f') or ('decl:%s' % o.get('decl'))
+            if key not in targets:
+                continue
+            for a in c.get('args', []):
+                cv = f.const_value(a)
+                lit = f.strval(a) if f.strval(a) is not None else (chr(cv[1]) if cv and cv[0] in ('char', 'int') and isinstance(cv[1], int) and 0 < cv[1] < 128 else None)
+                if lit and ('<' in lit or '>' in lit):
+                    bad = (i, lit)
+        if bad:
+            run.violation(rid, '%s#saved-markup-cut' % f.outer_name(), f.loc(bad[0]),
+                          '%s edits text it obtained from QDomNode::save() by looking for "%s": a nested element or text with the same characters is cut as well, and the object '
+                          'serializes to markup that is not well-formed (or loses content)' % (f.display()[:50], bad[1]))
+        else:
+            run.ok(rid, f.loc(saves[0][0]), 'saved DOM text is not cut by tag literals')
+    if not n:
+        raise AnalysisBroken('C02.R12: no parser saves DOM nodes into a string any more (QXmppMessage::parseExtension, XHTML-IM expected)')
